@@ -3,6 +3,8 @@
 Everything here is a graph query over MIR control-flow graphs, the call graph, or the typed
 HIR tree.  Nothing executes code of the analysed crate.
 """
+import json
+import os
 import re
 from collections import defaultdict, deque
 
@@ -374,6 +376,9 @@ class Prog:
         self.impls = facts["impls"]
         self.traits = {t["path"]: t for t in facts.get("traits", [])}
         self.hir = {h["fn"]: h for h in facts.get("hir", [])}
+        self.renamed = {}
+        if self.meta.get("crate", facts.get("crate")) == "lsm_tree":
+            self._tolerate_renames()
         self.closures_of = defaultdict(list)   # root fn path -> closure Fns (all nesting levels)
         self.children = defaultdict(list)      # parent path -> direct closure Fns
         for f in self.fns.values():
@@ -389,6 +394,32 @@ class Prog:
                     self.impl_of_trait_item[ti].append(m["path"])
         self._callers = None
         self._callgraph = None
+
+    def _tolerate_renames(self):
+        """The (B)/(G) rules read typed-HIR expressions in which locals appear by name.  A plain rename of a local or a
+        parameter is behaviour-preserving, so it must not change what the rules see: the binding names of every function
+        as they were when the rules were confirmed are kept in rules/refnames.json; when a function's names differ from
+        that reference only by substitution (k names gone, k new names, in binding order), the new names are mapped back
+        to the reference names before any rule runs.  Structure, operators, callees and operand positions are untouched,
+        so the mapping cannot hide a semantic change; when the name sets differ in any other way nothing is mapped."""
+        ref = load_refnames()
+        if not ref:
+            return
+        for path, h in self.hir.items():
+            want = ref.get(path)
+            if not want:
+                continue
+            cur = hir_binding_names(h)
+            if cur == want:
+                continue
+            cs, ws = set(cur), set(want)
+            gone = [n for n in want if n not in cs]
+            new = [n for n in cur if n not in ws]
+            if not gone or len(gone) != len(new):
+                continue
+            m = dict(zip(new, gone))
+            _hir_rename(h, m)
+            self.renamed[path] = m
 
     def fn(self, path):
         f = self.fns.get(path)
@@ -1177,6 +1208,53 @@ def switch_condition(f, bb):
 
 # --------------------------------------------------------------------------------------
 # HIR helpers
+
+REFNAMES = os.path.join(os.path.dirname(os.path.abspath(__file__)), "refnames.json")
+_refnames_cache = None
+
+
+def load_refnames():
+    global _refnames_cache
+    if _refnames_cache is None:
+        try:
+            with open(REFNAMES) as f:
+                _refnames_cache = json.load(f)
+        except (OSError, ValueError):
+            _refnames_cache = {}
+    return _refnames_cache
+
+
+def hir_binding_names(h):
+    """Names bound in a function (parameters first, then let / pattern / closure-parameter bindings in walk order),
+    each once."""
+    out = []
+    seen = set()
+
+    def walk(n):
+        if isinstance(n, dict):
+            if n.get("k") == "bind" and isinstance(n.get("n"), str) and n["n"] not in seen:
+                seen.add(n["n"])
+                out.append(n["n"])
+            for k, v in n.items():
+                walk(v)
+        elif isinstance(n, list):
+            for x in n:
+                walk(x)
+    walk(h.get("params", []))
+    walk(h.get("body"))
+    return out
+
+
+def _hir_rename(n, m):
+    if isinstance(n, dict):
+        if n.get("k") in ("bind", "var") and n.get("n") in m:
+            n["n"] = m[n["n"]]
+        for v in n.values():
+            _hir_rename(v, m)
+    elif isinstance(n, list):
+        for x in n:
+            _hir_rename(x, m)
+
 
 def hir_walk(node, depth=0, into_closures=True):
     """Pre-order walk over all dict nodes of a HIR tree."""
